@@ -1,6 +1,7 @@
 package checks
 
 import (
+	"fmt"
 	"os"
 	"strings"
 
@@ -83,11 +84,26 @@ func StructConfigs(thorough bool, caches []string, formats []string) []*world.Co
 		cs = append(cs, world.LKeyCfg(2, l, 1, f, "none"))
 	}
 	f0 := formats[0]
+	// non-initial start: a height-3 tree with chains of stacked pass-through nodes (10 user keys, only layer-0
+	// keys under a layer-3 key), all inserted and persisted, then every history of length <= 3 from there
+	cs = append(cs, ChainSeeded(f0, 3))
 	cs = append(cs, world.StringCfg(2, []uint8{0, 1, 0, 2, 0}, f0, "none"))
 	cs = append(cs, world.BytesCfg(2, []uint8{0, 1, 0, 2, 0}, formats[len(formats)-1], "none"))
 	cs = append(cs, world.StructCfg(2, []uint8{0, 1, 0, 2, 0}, formats[len(formats)-1], "none"))
 	cs = append(cs, world.IntCfg(2, []int{-4, -2, -1, 0, 1, 2, 4}, []interface{}{"a"}, "", f0, "none"))
 	return cs
+}
+
+// ChainSeeded is the seeded height-3 configuration described above.
+func ChainSeeded(format string, d int) *world.Config {
+	c := world.LKeyCfg(2, []uint8{0, 0, 0, 0, 3, 0, 0, 0, 1, 3}, 1, format, "none")
+	for k := range c.Keys {
+		c.Seed = append(c.Seed, world.Op{Kind: world.OpIns, K: k, V: 0})
+	}
+	c.Seed = append(c.Seed, world.Op{Kind: world.OpReload})
+	c.MaxDepth = d
+	c.Name = fmt.Sprintf("seeded-height3-chain/%s/depth%d", c.Name, d)
+	return c
 }
 
 var bothFormats = []string{ref.FormatBinary, ref.FormatMarshaler}
